@@ -1,4 +1,5 @@
 import PlumpyModel.PM.Proof3
+import PlumpyModel.Status.Model
 /-!
 # C05 — pause/play is transparent: nothing runs while paused
 
@@ -86,3 +87,51 @@ example : (run two (init 0) [.tick, .pause, .tick, .play, .tick]).trace.length =
 end
 
 end PMF
+
+/-! ### the status message (model `StatusM`: `set_status`, `on_paused`, `on_playing`) -/
+namespace StatusM
+
+/-- while paused (no further `on_paused` / `on_playing`) the saved status is kept, whatever `set_status` calls happen -/
+theorem run_keeps_pre (s : St) (mid : List Op) (h : ∀ o ∈ mid, ∃ v, o = .setStatus v) : (run s mid).pre = s.pre := by
+  induction mid generalizing s with
+  | nil => rfl
+  | cons o rest ih =>
+    obtain ⟨v, rfl⟩ := h _ (List.mem_cons_self ..)
+    have := ih (step s (.setStatus v)) (fun o ho => h o (List.mem_cons_of_mem _ ho))
+    simpa [run, List.foldl, step] using this
+
+/-- **the status message present before the pause is restored by play**: for every status `s.status` present when the pause
+takes effect, every pause message (or none), and every sequence of `set_status` calls made while paused, the `on_playing`
+that ends the pause leaves exactly `s.status`, and nothing saved. -/
+theorem C05_status_restored (s : St) (msg : Option String) (mid : List Op) (h : ∀ o ∈ mid, ∃ v, o = .setStatus v) :
+    run s ([.onPaused msg] ++ mid ++ [.onPlaying]) = { status := s.status, pre := none } := by
+  have hpre : (step s (.onPaused msg)).pre = s.status := by cases msg <;> rfl
+  have hk := run_keeps_pre (step s (.onPaused msg)) mid h
+  have hsplit : run s ([.onPaused msg] ++ mid ++ [.onPlaying]) = step (run (step s (.onPaused msg)) mid) .onPlaying := by
+    simp [run, List.foldl_append]
+  rw [hsplit]
+  show ({ status := (run (step s (.onPaused msg)) mid).pre, pre := none } : St) = _
+  rw [hk, hpre]
+
+/-- while paused the status shows the pause message when one was given, the previous status otherwise -/
+theorem C05_status_while_paused (s : St) (msg : Option String) :
+    (step s (.onPaused msg)).status = (match msg with | some m => some m | none => s.status) := by
+  cases msg <;> rfl
+
+/-- the statement over whole histories: in any history of hook calls, after every `on_playing` that follows an `on_paused`
+(with only `set_status` calls in between) the status is the one that was present just before that `on_paused`. -/
+theorem C05_status_restored_in_history (s0 : St) (before : List Op) (msg : Option String) (mid : List Op)
+    (h : ∀ o ∈ mid, ∃ v, o = .setStatus v) :
+    (run s0 (before ++ [.onPaused msg] ++ mid ++ [.onPlaying])).status = (run s0 before).status := by
+  have h1 := C05_status_restored (run s0 before) msg mid h
+  have hsplit : run s0 (before ++ [.onPaused msg] ++ mid ++ [.onPlaying])
+      = run (run s0 before) ([.onPaused msg] ++ mid ++ [.onPlaying]) := by
+    simp [run, List.foldl_append]
+  rw [hsplit, h1]
+
+-- non-vacuity and the cases a sampled test misses: no status before the pause (None) with a pause message
+example : run {} [.onPaused (some "held"), .onPlaying] = {} := by decide
+example : run {} [.setStatus (some "busy"), .onPaused none, .setStatus (some "x"), .onPlaying] = { status := some "busy" } := by decide
+example : (run {} [.setStatus (some "busy"), .onPaused (some "held")]).status = some "held" := by decide
+
+end StatusM
